@@ -96,6 +96,12 @@ CHECKS["C03"] = dict(
    note="As C01; dsysv / np.linalg.inv by contract; independence and normality of the draws rest on numpy's multivariate_normal.",
    technique="translation of the .pyx to Python + symbolic execution + z3; sat models replayed on the compiled kernel with a recording Generator against the dense conditional posterior",
    ref="3/C03")
+CHECKS["C05"] = dict(
+   text="(1) Inductive step on the transliterated kernel: batch_marginal_ln_likelihood and batch_get_posterior_samples are started from an arbitrary helper state (every scratch cell a fresh symbol) and the outputs - ll values, everything handed to LAPACK and to the generator, output rows - are shown to mention no pre-state symbol, which covers call histories of any length and any batch position; __reduce__ rebuilds from the constructor's arguments. "
+        "(2) TheJoker.marginal_ln_likelihood through pack / read_batch on a user file / the temp-file route / explicit index arrays in symbolic order, n_batches 1..N+2, pools running workers in reverse order, library units symbolic: z3 proves cell i = LL(row i in internal units), in input order. (3) A file name evaluated, overwritten in other units and evaluated again yields the new values.",
+   note="Trusted: kernel/LAPACK/RNG stubs as in C01/C03 (a stub's output depends only on its inputs); file/pool contracts; real process scheduling and pickling are exercised only in the replay scenario (SerialPool and MultiPool(2)). Equal-seed acceptance across paths is C02's claim.",
+   technique="symbolic execution (transliterated .pyx from an arbitrary pre-state; real Python partition code) + z3; scenario replay on the real build",
+   ref="3/C05")
 NOT_YET = {}
 ALL = ["C%02d" % i for i in range(1, 20)]
 
